@@ -26,6 +26,8 @@ ISO_MENU = {
     "A6": lambda S: [S(0, de=-80), S(3, ds=-90), S(4)],               # alternative donor and acceptor on a long nested intron
     "A7": lambda S: [S(1), S(2, ds=40)],                              # alternative first exon + alternative acceptor
 }
+# an isoform that differs from A1 by 3 bases at one exon end (closer than every non-zero delta): only in dedicated jobs, not in the grammar
+NEAR = {"A8": lambda S: [S(0), S(1), S(2, de=3), S(3), S(4)]}
 SECOND = ("none", "same-strand", "antisense", "mono-in-intron", "same+anti", "exon-is-intron")
 
 
@@ -38,7 +40,7 @@ def annotation(variant):
         variant = {0: (("A1", "A2", "A3", "A4"), "none"), 1: (("A1", "A2", "A3", "A4", "A5"), "same-strand"),
                    2: (("A1", "A2", "A3", "A4", "A5"), "same+anti")}[variant]
     isos, second = variant
-    genes = [{"id": "GA", "chr": "chr1", "strand": "+", "transcripts": [{"id": t, "exons": ISO_MENU[t](S)} for t in isos]}]
+    genes = [{"id": "GA", "chr": "chr1", "strand": "+", "transcripts": [{"id": t, "exons": (ISO_MENU.get(t) or NEAR[t])(S)} for t in isos]}]
     if second in ("same-strand", "same+anti"):
         genes.append({"id": "GB", "chr": "chr1", "strand": "+", "transcripts": [{"id": "B1", "exons": [S(3), S(4), S(5)]}]})   # shares exons 3,4 with GA
     if second in ("antisense", "same+anti"):
@@ -287,6 +289,14 @@ def case(args):
             got_inc = sum(x["inc"] for x in seen.get(k, []))
             got_exc = sum(x["exc"] for x in seen.get(k, []))
             if (got_inc, got_exc) != (inc, exc):
+                # a feature with a twin (another annotated feature of the same kind within delta at both ends): IsoQuant lets a read feature
+                # match only its nearest annotated feature and reports the twin as excluded
+                twin = delta > 0 and any(k2 != k and k2[0] == k[0] and abs(k2[1] - k[1]) <= delta and abs(k2[2] - k[2]) <= delta for k2 in table)
+                if twin and got_inc + got_exc == inc + exc and got_inc <= inc:
+                    errs.append((kind + ":count:twin-within-delta", "%s %s (another annotated %s lies within delta=%d of it): reported include/exclude "
+                                 "%d/%d, by the statement %d/%d - reads that contain the feature within delta are counted as excluding it" %
+                                 (kind, k, kind, delta, got_inc, got_exc, inc, exc)))
+                    continue
                 errs.append((kind + ":count", "%s %s: reported include/exclude %d/%d, recount from the alignments %d/%d" %
                              (kind, k, got_inc, got_exc, inc, exc)))
         if grouped:
@@ -353,6 +363,8 @@ def run(ctx):
             for two in (1, 2):
                 for preset in (("default",) if quick else ("exact", "default")):
                     jobs.append(((isos, second), two, preset, 0, ctx.scratch))
+    for preset in ("exact", "default"):
+        jobs.append(((("A1", "A8"), "none"), 0, preset, 0, ctx.scratch))
     nrows = 0
     for key, errs, nf in core.pmap(case, jobs):
         nrows += nf
